@@ -11,6 +11,9 @@ import (
 
 func init() {
 	register(
+		&Rule{ID: "KI-WRITERS", Doc: "the builder's / token's configuration (root key id, random source, root key) is written only by constructors and option appliers; Build does not reset it", Run: ruleKIWriters, Min: 4},
+		&Rule{ID: "OWN-CLOSURE", Doc: "option closures store only values they create themselves or scalars, never a captured mutable object (which every configured instance would share)", Run: ruleOwnClosure, Min: 3},
+		&Rule{ID: "SN-ALL", Doc: "saving and loading a snapshot treat every fact, rule, check, policy and query: no element is skipped by a continue or a conditional add", Run: ruleSNAll, Min: 8},
 		&Rule{ID: "SN-FIELDS", Doc: "the authorizer snapshot writes every field of pb.AuthorizerPolicies and the loader reads every field; written version = accepted version", Run: ruleSNFields, Min: 12},
 		&Rule{ID: "SN-KIND", Doc: "policy kinds are mapped totally, inversely and name-consistently when saving and loading", Run: ruleSNKind, Min: 4},
 		&Rule{ID: "SN-DIRTY", Doc: "saving is refused once the world has been run; every successful Run marks the authorizer dirty", Run: ruleSNDirty, Min: 3},
@@ -23,6 +26,8 @@ func init() {
 		&Rule{ID: "EN-UNIFY", Doc: "the join binds variables by visiting every term position of every body predicate and pairing position j of the predicate with position j of the matched fact", Run: ruleENUnify, Min: 3},
 		&Rule{ID: "EN-EXITS", Doc: "the enumeration goroutine of combine ends only for one of the enumerated reasons", Run: ruleENExits, Min: 5},
 		&Rule{ID: "EN-HEAD", Doc: "the derived fact is the rule head with every variable position (full range) replaced by its matched value; a missing binding is an error; QueryRule applies the rule to the world's facts", Run: ruleENHead, Min: 3},
+		&Rule{ID: "EN-EXPR", Doc: "a combination is sent only if every expression of the rule (full range) evaluated to exactly the boolean true", Run: ruleENExpr, Min: 3},
+		&Rule{ID: "EN-ODOMETER", Doc: "the join's index odometer: a position is incremented only below the last fact, every wrapped position moves the cursor back by exactly one, exhaustion is reported only at position 0", Run: ruleENOdometer, Min: 4},
 		&Rule{ID: "EN-MATCH", Doc: "Predicate.Match accepts only equal name and arity and, position by position, a variable or an Equal constant", Run: ruleENMatch, Min: 3},
 	)
 }
@@ -170,7 +175,34 @@ func ruleSNDirty(p *Prog, r *Reporter) {
 		}
 		r.Check(ok, p.instrPos(ret), p.FuncName(ser), "save only when clean", "a snapshot is produced only while the world has not been run", "a snapshot can be produced after the world was run (derived facts would be saved as if they were authorizer facts)")
 	}
+	// what is returned is exactly the freshly marshalled snapshot (no cached bytes)
+	for _, ret := range returnsOf(ser) {
+		if isErrorReturn(ret) {
+			continue
+		}
+		e0, is0 := retVal(ret, 0).(*ssa.Extract)
+		okM := false
+		if is0 {
+			if c, isC := e0.Tuple.(*ssa.Call); isC && isCallTo(&c.Call, "google.golang.org/protobuf/proto.Marshal") {
+				if a, isA := unwrap(c.Call.Args[0]).(*ssa.Alloc); isA && isNamed(deref(a.Type()), pkgPathOf("pb"), "AuthorizerPolicies") {
+					okM = true
+				}
+			}
+		}
+		r.Check(okM, p.instrPos(ret), p.FuncName(ser), "returns the new snapshot", "the result is the marshalled literal built in this call", "SerializePolicies can return bytes that are not the snapshot built in this call (cached / stale)")
+	}
+	// only Reset (and the constructor) may clear the evaluated flag
 	_, ms := authorizerImpl(p)
+	for _, m := range ms {
+		for _, fs := range fieldStoresVia(m, m.Params[0]) {
+			if fs.field != "dirty" {
+				continue
+			}
+			if k, isC := fs.st.Val.(*ssa.Const); isC && k.Value != nil && k.Value.String() == "false" {
+				r.Check(m.Name() == "Reset", p.instrPos(fs.st), p.FuncName(m), "clear dirty", "the evaluated flag is cleared only by Reset, together with the world", "the evaluated flag is cleared outside Reset while the evaluated world is kept: saving is allowed again and stores derived / token facts")
+			}
+		}
+	}
 	for _, m := range ms {
 		for _, c := range callsIn(m) {
 			cv, ok := c.(*ssa.Call)
@@ -502,6 +534,14 @@ func ruleENApplyAll(p *Prog, r *Reporter) {
 			r.Bad(p.instrPos(rules.header.Instrs[0]), name, "Apply", "the rule loop does not apply the rule")
 			continue
 		}
+		// no rule is skipped: every way to the next rule has called Apply on the current one
+		okEvery := true
+		for _, latch := range rules.latches {
+			if reachAvoiding(rules.bodyBB, latch, blockSet{apply.Block(): true}) && latch != apply.Block() {
+				okEvery = false
+			}
+		}
+		r.Check(okEvery, p.instrPos(apply), name, "no rule skipped", "every iteration of the rule loop applies its rule before moving on", "a rule can be skipped in an iteration (continue / conditional Apply): facts it derives from newly added facts are never produced")
 		okArgs := rules.isElem(apply.Call.Args[0]) && strings.HasSuffix(p.D(apply.Call.Args[1]), ".facts")
 		r.Check(okArgs, p.instrPos(apply), name, "Apply(rule, facts)", "each rule is applied to the world's current facts", "Apply is not called with the current range element and the world's facts")
 		// exits of the rule loop other than exhaustion must end the worker (send error / cancelled)
@@ -981,4 +1021,430 @@ func ruleENHead(p *Prog, r *Reporter) {
 		}
 		r.Check(ok, p.Pos(q.Pos()), p.FuncName(q), "QueryRule", "applies the given rule to the world's facts and returns exactly what Apply derived", "QueryRule does not return the result of applying the rule to the world's facts")
 	}
+}
+
+func ruleENExpr(p *Prog, r *Reporter) {
+	globalP = p
+	body := combineBody(p)
+	if body == nil {
+		r.Dunno("?", "datalog.combine", "goroutine", "not found")
+		return
+	}
+	name := p.FuncName(body)
+	var loopE *rangeLoop
+	for _, rl := range rangeLoops(body) {
+		if strings.HasSuffix(p.D(rl.seq), "expressions") {
+			loopE = rl
+		}
+	}
+	if loopE == nil {
+		r.Bad(p.Pos(body.Pos()), name, "expression loop", "no full-range loop over the rule's expressions in the join: some expressions are not evaluated")
+		return
+	}
+	var eval *ssa.Call
+	for _, c := range callsIn(body) {
+		if cv, ok := c.(*ssa.Call); ok && isCallTo(&cv.Call, "datalog.Expression.Evaluate") && loopE.inside(cv.Block()) {
+			eval = cv
+		}
+	}
+	if eval == nil {
+		r.Bad(p.instrPos(loopE.header.Instrs[0]), name, "Evaluate", "the expression loop does not evaluate the expression")
+		return
+	}
+	// the truth test: res.Equal(Bool(true))
+	var truth *ssa.Call
+	for _, c := range callsIn(body) {
+		cv, ok := c.(*ssa.Call)
+		if !ok || !loopE.inside(cv.Block()) {
+			continue
+		}
+		if cv.Call.IsInvoke() && cv.Call.Method.Name() == "Equal" && len(cv.Call.Args) == 1 {
+			if ex, isEx := cv.Call.Value.(*ssa.Extract); isEx && ex.Tuple == ssa.Value(eval) && ex.Index == 0 {
+				if k, isK := unwrap(cv.Call.Args[0]).(*ssa.Const); isK && k.Value != nil && k.Value.String() == "true" && isRepoNamed(k.Type(), "datalog", "Bool") {
+					truth = cv
+				}
+			}
+		}
+	}
+	r.Check(truth != nil, p.instrPos(eval), name, "truth test", "the expression result is compared with the boolean true (Equal(Bool(true)))", "an expression is not tested for being exactly the boolean true: a non-boolean or otherwise non-true result lets the combination through")
+	if truth == nil {
+		return
+	}
+	okNext := true
+	for _, latch := range loopE.latches {
+		pass := false
+		for _, g := range guardsOnEdge(latch, loopE.header) {
+			if g.cond == ssa.Value(truth) && g.val {
+				pass = true
+			}
+		}
+		if !pass {
+			okNext = false
+		}
+	}
+	r.Check(okNext, p.instrPos(truth), name, "all expressions", "the next expression is reached only when the current one is true", "evaluation continues to the next expression although the current one was not true")
+	// the combination is sent only after exhaustion of the loop with every expression true
+	okSend := false
+	for _, b := range body.Blocks {
+		for _, in := range b.Instrs {
+			sel, ok := in.(*ssa.Select)
+			if !ok {
+				continue
+			}
+			for _, stt := range sel.States {
+				if stt.Dir != types.SendOnly {
+					continue
+				}
+				// the success send: its value carries a nil error
+				if !dependsOn(stt.Send, func(x ssa.Value) bool { return isNilConst(x) }) {
+					continue
+				}
+				for _, g := range guardsOf(b) {
+					ph, isPhi := g.cond.(*ssa.Phi)
+					if !isPhi || !g.val {
+						continue
+					}
+					all := true
+					for _, lf := range phiLeaves(ph) {
+						k, isK := lf.val.(*ssa.Const)
+						if !isK || k.Value == nil {
+							all = false
+							continue
+						}
+						if k.Value.String() == "true" && loopE.body[lf.pred] && lf.pred != loopE.header {
+							all = false // set true from inside the loop
+						}
+						if k.Value.String() == "false" {
+							falseOK := false
+							for _, gg := range guardsOnEdge(lf.pred, lf.blk) {
+								if gg.cond == ssa.Value(truth) && !gg.val {
+									falseOK = true
+								}
+							}
+							if !falseOK {
+								all = false
+							}
+						}
+					}
+					if all {
+						okSend = true
+					}
+				}
+			}
+		}
+	}
+	r.Check(okSend, p.instrPos(truth), name, "send only if all true", "the combination is sent only when the validity flag is still true after all expressions", "a combination can be sent although some expression was not true (or the flag logic is not the conjunction over all expressions)")
+}
+
+// ruleENOdometer checks structural necessary conditions of the mixed-radix counter that enumerates
+// fact combinations (advanceIndexes). It does not prove the enumeration complete.
+func ruleENOdometer(p *Prog, r *Reporter) {
+	globalP = p
+	fn := p.Func("datalog", "", "advanceIndexes")
+	if fn == nil || len(fn.Params) < 3 {
+		r.Dunno("?", "datalog.advanceIndexes", "function", "the join's index odometer was not found (renamed or rewritten beyond the enumerated shape)")
+		return
+	}
+	name := p.FuncName(fn)
+	cur, idx, facts := fn.Params[0], fn.Params[1], fn.Params[2]
+	I := "*" + idx.Name()
+	C := "*" + cur.Name()
+	lastFact := "(len(*" + facts.Name() + ")-1:int)"
+	// the position loop: i from *current down to 0
+	var lp *loop
+	var iphi *ssa.Phi
+	for _, l := range naturalLoops(fn) {
+		for _, in := range l.header.Instrs {
+			if ph, ok := in.(*ssa.Phi); ok {
+				for k, e := range ph.Edges {
+					if !l.body[l.header.Preds[k]] && p.D(e) == C {
+						lp, iphi = l, ph
+					}
+				}
+			}
+		}
+	}
+	if lp == nil {
+		r.Bad(p.Pos(fn.Pos()), name, "position loop", "no loop that starts at the current cursor position")
+		return
+	}
+	for k, e := range iphi.Edges {
+		if lp.body[lp.header.Preds[k]] {
+			bo, ok := e.(*ssa.BinOp)
+			okDec := ok && bo.Op == token.SUB && bo.X == ssa.Value(iphi)
+			if okDec {
+				c, isC := constInt(bo.Y)
+				okDec = isC && c == 1
+			}
+			r.Check(okDec, p.instrPos(lp.header.Instrs[0]), name, "position step", "the loop moves to the previous position (i-1)", "the position loop does not step to the previous position by exactly one")
+		}
+	}
+	posD := I + "[" + p.D(iphi) + "]"
+	nInc, nWrap := 0, 0
+	for _, b := range fn.Blocks {
+		for _, in := range b.Instrs {
+			st, ok := in.(*ssa.Store)
+			if !ok || p.D(st.Addr) != "&"+posD {
+				continue
+			}
+			gs := guardsOf(b)
+			below := func(want bool) bool {
+				for _, g := range gs {
+					if bo, ok := g.cond.(*ssa.BinOp); ok && bo.Op == token.LSS && p.D(bo.X) == posD && p.D(bo.Y) == lastFact && g.val == want {
+						return true
+					}
+				}
+				return false
+			}
+			if bo, isB := st.Val.(*ssa.BinOp); isB && bo.Op == token.ADD && p.D(bo.X) == posD {
+				nInc++
+				c, isC := constInt(bo.Y)
+				// after the increment the function reports success without touching another position
+				leaves := true
+				for bb := range reachableFrom(b) {
+					if bb != b && lp.body[bb] {
+						leaves = false
+					}
+				}
+				r.Check(isC && c == 1 && below(true) && leaves, p.instrPos(st), name, "increment", "a position is advanced by one only while it is below the last fact, and the search resumes from there", "a position is incremented without the test 'index < len(facts)-1' (or by a step other than one, or the loop continues afterwards): combinations are skipped or the index runs past the facts")
+				continue
+			}
+			if c, isC := constInt(st.Val); isC && c == 0 {
+				nWrap++
+				// wrap: only for positions > 0, not below the last fact, and the cursor moves back by exactly one in the same step
+				posGuard := false
+				for _, g := range gs {
+					if bo, ok := g.cond.(*ssa.BinOp); ok && bo.Op == token.GTR && bo.X == ssa.Value(iphi) && g.val {
+						if z, isZ := constInt(bo.Y); isZ && z == 0 {
+							posGuard = true
+						}
+					}
+				}
+				curDec := 0
+				for _, in2 := range b.Instrs {
+					if s2, ok := in2.(*ssa.Store); ok && s2.Addr == ssa.Value(cur) {
+						if bo, isB := s2.Val.(*ssa.BinOp); isB && bo.Op == token.SUB && p.D(bo.X) == C {
+							if k, isK := constInt(bo.Y); isK && k == 1 {
+								curDec++
+							}
+						}
+					}
+				}
+				r.Check(posGuard && below(false) && curDec == 1, p.instrPos(st), name, "wrap", "a position that reached the last fact is reset to 0 only if it is not position 0, and the cursor moves back by exactly one with it", "a wrapped position does not move the cursor back by exactly one in the same step (lost carry), or position 0 is wrapped: the newly selected fact of an earlier predicate is never matched against its predicate")
+				continue
+			}
+			r.Bad(p.instrPos(st), name, "index store", "an index position is assigned "+shortD(st.Val)+", which is neither +1 nor a reset to 0")
+		}
+	}
+	// no store to the cursor outside a wrap block
+	for _, b := range fn.Blocks {
+		for _, in := range b.Instrs {
+			if s2, ok := in.(*ssa.Store); ok && s2.Addr == ssa.Value(cur) {
+				wrapHere := false
+				for _, in2 := range b.Instrs {
+					if s3, ok := in2.(*ssa.Store); ok && p.D(s3.Addr) == "&"+posD {
+						if c, isC := constInt(s3.Val); isC && c == 0 {
+							wrapHere = true
+						}
+					}
+				}
+				if !wrapHere {
+					r.Bad(p.instrPos(s2), name, "cursor store", "the cursor is changed in a step that does not wrap a position")
+				}
+			}
+		}
+	}
+	if nInc != 1 || nWrap != 1 {
+		r.Bad(p.Pos(fn.Pos()), name, "odometer shape", fmt.Sprintf("%d increment and %d wrap sites (expected one each)", nInc, nWrap))
+	}
+	// exhaustion: false only at position 0 that cannot advance
+	for _, ret := range returnsOf(fn) {
+		k, isC := retVal(ret, 0).(*ssa.Const)
+		if !isC || k.Value == nil {
+			r.Bad(p.instrPos(ret), name, "result", "non-constant result")
+			continue
+		}
+		if k.Value.String() == "false" {
+			ok := false
+			for _, g := range guardsOf(ret.Block()) {
+				if bo, isB := g.cond.(*ssa.BinOp); isB && bo.Op == token.GTR && bo.X == ssa.Value(iphi) && !g.val {
+					ok = true
+				}
+			}
+			r.Check(ok, p.instrPos(ret), name, "exhausted", "exhaustion is reported only when position 0 itself cannot advance", "exhaustion (false) is reported while an earlier position could still advance")
+		}
+	}
+}
+
+func ruleKIWriters(p *Prog, r *Reporter) {
+	globalP = p
+	cfgFields := map[string]bool{"rootKeyID": true, "rng": true, "rootKey": true}
+	for _, tn := range []string{"builderOptions", "biscuitOptions"} {
+		t := p.NamedType("biscuit", tn)
+		if t == nil {
+			r.Dunno("?", "biscuit."+tn, "type", "not found")
+			continue
+		}
+		for _, fn := range p.funcsIn("biscuit") {
+			name := p.FuncName(fn)
+			for _, b := range fn.Blocks {
+				for _, in := range b.Instrs {
+					st, ok := in.(*ssa.Store)
+					if !ok {
+						continue
+					}
+					// whole-struct overwrite through a pointer that is not a fresh allocation
+					if types.Identical(deref(st.Addr.Type()), t) {
+						if _, fresh := st.Addr.(*ssa.Alloc); !fresh {
+							r.Bad(p.instrPos(st), name, "overwrite *"+tn, "the whole "+tn+" is overwritten after construction: configuration given by options (root key id, random source) is lost for later use of the builder")
+						}
+						continue
+					}
+					fa, isFA := st.Addr.(*ssa.FieldAddr)
+					if !isFA || !types.Identical(deref(fa.X.Type()), t) || !cfgFields[fieldName(fa)] {
+						continue
+					}
+					_, fresh := fa.X.(*ssa.Alloc)
+					applier := strings.HasPrefix(fn.Name(), "applyTo")
+					r.Check(fresh || applier, p.instrPos(st), name, "store "+tn+"."+fieldName(fa), "written by a constructor or an option applier", "configuration field "+fieldName(fa)+" is written outside constructors and option appliers")
+				}
+			}
+		}
+	}
+}
+
+func ruleOwnClosure(p *Prog, r *Reporter) {
+	globalP = p
+	n := 0
+	for _, fn := range p.funcsIn("biscuit", "datalog") {
+		if fn.Parent() == nil {
+			continue
+		}
+		// function literals whose type is one of the repository's option types
+		isOpt := false
+		for _, pk := range []string{"biscuit", "datalog"} {
+			sc := p.Pkgs[pk].Types.Scope()
+			for _, nm := range sc.Names() {
+				tn, ok := sc.Lookup(nm).(*types.TypeName)
+				if !ok || !strings.HasSuffix(nm, "Option") {
+					continue
+				}
+				if sig, ok := tn.Type().Underlying().(*types.Signature); ok && types.Identical(stripRecv(fn.Signature), sig) {
+					isOpt = true
+				}
+			}
+		}
+		if !isOpt {
+			continue
+		}
+		name := p.FuncName(fn)
+		for _, b := range fn.Blocks {
+			for _, in := range b.Instrs {
+				st, ok := in.(*ssa.Store)
+				if !ok {
+					continue
+				}
+				if _, local := st.Addr.(*ssa.Alloc); local {
+					continue
+				}
+				n++
+				captured := false
+				if mutableRefType(st.Val.Type()) {
+					captured = dependsOnNoCalls(st.Val, func(x ssa.Value) bool { _, isFV := x.(*ssa.FreeVar); return isFV })
+				}
+				r.Check(!captured, p.instrPos(st), name, "store "+normaliseD(shortD(st.Addr)), "stores a scalar or a value created inside the option", "the option stores a captured mutable object ("+shortD(st.Val)+"): every authorizer / world configured with this option value shares it, so content and concurrent use leak between them")
+			}
+		}
+	}
+	if n == 0 {
+		r.Bad("?", "biscuit,datalog", "option closures", "no option closure found")
+	}
+}
+
+// dependsOnNoCalls: like dependsOn but does not look through calls (a call result is a new value).
+func dependsOnNoCalls(v ssa.Value, pred func(ssa.Value) bool) bool {
+	seen := map[ssa.Value]bool{}
+	var rec func(v ssa.Value) bool
+	rec = func(v ssa.Value) bool {
+		if v == nil || seen[v] {
+			return false
+		}
+		seen[v] = true
+		if pred(v) {
+			return true
+		}
+		switch x := v.(type) {
+		case *ssa.UnOp:
+			return rec(x.X)
+		case *ssa.FieldAddr:
+			return rec(x.X)
+		case *ssa.Field:
+			return rec(x.X)
+		case *ssa.IndexAddr:
+			return rec(x.X)
+		case *ssa.Slice:
+			return rec(x.X)
+		case *ssa.ChangeType:
+			return rec(x.X)
+		case *ssa.MakeInterface:
+			return rec(x.X)
+		case *ssa.Phi:
+			for _, e := range x.Edges {
+				if rec(e) {
+					return true
+				}
+			}
+		}
+		return false
+	}
+	return rec(v)
+}
+
+func ruleSNAll(p *Prog, r *Reporter) {
+	globalP = p
+	_, ms := authorizerImpl(p)
+	var roots []*ssa.Function
+	for _, m := range ms {
+		if m.Name() == "SerializePolicies" || m.Name() == "LoadPolicies" {
+			roots = append(roots, m)
+		}
+	}
+	if len(roots) < 2 {
+		r.Dunno("?", "biscuit.authorizer", "SerializePolicies/LoadPolicies", "methods not found")
+		return
+	}
+	// the authorizer's own helpers reachable from the two entry points (loadPoliciesV2, ...)
+	fns := map[*ssa.Function]bool{}
+	var visit func(f *ssa.Function)
+	visit = func(f *ssa.Function) {
+		if fns[f] {
+			return
+		}
+		fns[f] = true
+		for _, c := range callsIn(f) {
+			if g := c.Common().StaticCallee(); g != nil && p.pkgShort(g) == "biscuit" && g.Signature.Recv() != nil && !converterName.MatchString(g.Name()) {
+				if tokenParam(g) == nil && sameRecv(g, roots[0]) {
+					visit(g)
+				}
+			}
+		}
+	}
+	for _, m := range roots {
+		visit(m)
+	}
+	sink := func(c *ssa.Call) bool {
+		return isCallTo(&c.Call, "datalog.World.AddFact", "datalog.World.AddRule")
+	}
+	n := 0
+	for _, f := range sortedFuncs(p, fns) {
+		n += checkElemwiseLoops(p, r, f, p.FuncName(f), sink)
+	}
+	if n == 0 {
+		r.Bad("?", "biscuit.authorizer", "snapshot loops", "no element-wise loop found in saving / loading")
+	}
+}
+
+func sameRecv(a, b *ssa.Function) bool {
+	ra, rb := a.Signature.Recv(), b.Signature.Recv()
+	return ra != nil && rb != nil && types.Identical(ra.Type(), rb.Type())
 }
